@@ -27,6 +27,25 @@ TEXT = {
                 "UTF-8 validity is oracle-checked per explored value, not a theorem.",
         "technique": "Lean 4 proof (capacity-respecting action algebra, mutual structural induction; decide over the extracted 256-entry table); three-way differential run zlink / serde_json / model",
     },
+    "C08": {
+        "level": "Machine-checked refinement theorem over the server-loop model: for every event sequence (connections, byte arrivals split anywhere, closes, server polls), any number of connections, every well-behaved connection "
+                 "wherever it lives has had exactly its first k calls consumed, in order, once each, and its output (plus unwritten items of an open stream) equals the sequential per-connection reference; oneway calls answer nothing. "
+                 "Differential run of the real Server::run future (manual executor, scripted listener/sockets) vs the model on 4k/60k schedules incl. the global service-invocation order.",
+        "design_ref": "DESIGN.md §5 C08, §4.6", "note": RX_NOTE + " Server loop: Zlink/Model/Server.lean tied to server/mod.rs + select_all.rs by scenario `srv`; service = fixed test family; select_biased!/fuse polling order assumed as documented.",
+        "technique": "Lean 4 proof (global invariant = conjunction of per-connection refinement invariants, preserved by every loop iteration and event); model-vs-implementation correspondence run",
+    },
+    "C09": {
+        "level": "Machine-checked non-interference: the refinement invariant is required of well-behaved connections only and NOTHING is assumed of the others (arbitrary bytes, closes at any point, write failures, arbitrary state), "
+                 "yet every loop iteration preserves it - so a healthy connection's replies are a function of its own calls. Differential fault-injection run (truncated frames, EOF mid-burst, read errors, write failure at write k, undecodable calls) with the server future required to stay pending.",
+        "design_ref": "DESIGN.md §5 C09", "note": RX_NOTE + " Same server model as C08 with fault scripts (write-failure index, close/read-error events).",
+        "technique": "Lean 4 proof (invariant guarded by a ghost `good` flag: obligations only for healthy connections); fault-injection correspondence run",
+    },
+    "C10": {
+        "level": "Machine-checked: for every event sequence, every streaming connection's sent output followed by its unsent items equals the reference (items in order with the service's continues flags); the hand-back of a finished stream and the "
+                 "drop of an unwritable subscription preserve every other connection's invariant; a ready call on another connection is served before any stream item. Differential run with streaming calls of 0..4 items, pipelined calls before/behind, write failures.",
+        "design_ref": "DESIGN.md §5 C10", "note": RX_NOTE + " Same server model as C08; stream items always ready (stream::iter).",
+        "technique": "Lean 4 proof (same global invariant, stream bookkeeping `out ++ pending = reference`); model-vs-implementation correspondence run",
+    },
     "C17": {
         "level": "Machine-checked theorems parametric in growth step and limit: buffer capacity never exceeds the limit (inbound: every event sequence; outbound: every operation); a lone frame is "
                  "delivered iff its wire size is below the limit, for every growth step and read-size schedule, otherwise overflow with exactly `max` bytes buffered; an outbound message is accepted iff "
